@@ -1,14 +1,27 @@
 #!/bin/bash
 # Runs every stored seeded change (seeded/<id>[-n]/patch.diff) against the check of its property on a throw-away copy of
 # /repo and prints one line per seed: CAUGHT (exit 1 with a VIOLATION line), MISSED (exit 0) or UNDECIDED (exit 2).
+#   tools/run_all_seeds.sh [streams]     (default 1; with k streams the properties are dealt round-robin to k sequential
+#                                         workers, each with its own scratch copy — a property is never run twice at once)
 cd /verif
-for d in seeded/*/; do
-  id=$(basename $d); pid=${id%%-*}
-  out=$(tools/try_seed_scratch.sh /verif/$d/patch.diff $pid 2>&1)
-  rc=$(echo "$out" | grep -o "rc=[0-9]*" | tail -1)
-  case "$rc" in
-    rc=1) echo "CAUGHT    $id  $(echo "$out" | grep -m1 '^VIOLATION' | cut -c1-160)";;
-    rc=0) echo "MISSED    $id";;
-    *)    echo "UNDECIDED $id  $(echo "$out" | grep -m1 UNDECIDED | cut -c1-200)";;
-  esac
-done
+K=${1:-1}
+props=$(ls seeded | sed 's/-.*//' | sort -u)
+worker() {
+  k=$1; shift
+  for pid in "$@"; do for d in seeded/$pid seeded/$pid-*; do
+    [ -f $d/patch.diff ] || continue
+    id=$(basename $d)
+    out=$(SEEDRUN=/var/tmp/qrlew-verif-seedrun-$k tools/try_seed_scratch.sh /verif/$d/patch.diff $pid 2>&1)
+    rc=$(echo "$out" | grep -o "rc=[0-9]*" | tail -1)
+    case "$rc" in
+      rc=1) echo "CAUGHT    $id  $(echo "$out" | grep -m1 '^VIOLATION' | cut -c1-160)";;
+      rc=0) echo "MISSED    $id";;
+      *)    echo "UNDECIDED $id  $(echo "$out" | grep -m1 -E 'UNDECIDED|does not apply' | cut -c1-200)";;
+    esac
+  done; done
+  rm -rf /var/tmp/qrlew-verif-seedrun-$k
+}
+i=0; declare -a buckets
+for p in $props; do buckets[$((i % K))]+=" $p"; i=$((i+1)); done
+for k in $(seq 0 $((K-1))); do worker $k ${buckets[$k]} & done
+wait
